@@ -132,10 +132,14 @@ PROPS["C10"] = {
     "lean_module": "RaftVerif.Props.C10",
     "theorems": [
         T("SV.exec_prefix", "every crash image is the durable state after a prefix of some handler's write plan"),
+        T("SV.restart_resumes", "whenever NewRaft returns a server on a durable image: its term is the durable term, it is a follower, its cached last entry is the store's last entry, its snapshot position is the newest usable snapshot's; snapshots listed but none usable means no server"),
+        T("SV.restart_fsm", "the FSM is handed the newest usable snapshot first, then exactly the command entries above it up to the new lastApplied, each once, in increasing index order, none skipped; without RestoreCommittedLogs nothing is replayed, with it lastApplied = max(snapshot, min(staged, last)) and commit = min(staged, last)"),
+        T("SV.restart_returns", "NewRaft returns whenever the snapshot store lists nothing or a usable snapshot, the store holds the entry its last index names and the log is contiguous from just above that snapshot to its last index"),
+        T("SV.damaged_falls_back", "after the newest usable snapshot is damaged the next usable one (newest first) is used"),
     ],
     "engines": [universe("C10"), handlers("C10", 3000, 60000)],
     "assumptions": [SV_NOTE, "restart = NewRaft on the surviving stores; crash images are taken at every durable-write ordinal of every handler"],
-    "level_note": "partial: recovery is tied by correspondence (model restart = NewRaft on every generated crash image) and checked by monitors; theorems about `restart` are still to be written.",
+    "level_note": "partial: the theorems are about the model's NewRaft (`SV.restart`), tied to the real constructor by correspondence on every generated crash image (incl. a damaged newest snapshot); `rejoins and catches up without breaking any safety property` rests on the cluster engine's monitors.",
 }
 
 PROPS["C11"] = {
